@@ -17,7 +17,7 @@ impl Invert {
 
 impl Pattern for Invert {
     fn matches(&self, tokens: &[Token], source: &[char]) -> usize {
-        if self.inner.matches(tokens, source) != 0 {
+        if tokens.is_empty() || self.inner.matches(tokens, source) != 0 {
             0
         } else {
             1
